@@ -14,6 +14,15 @@ import tempfile
 
 from vf import common
 
+# (name, file, substitutions, property whose check must stay at exit 0; C17 must also keep every obligation discharged)
+HARMLESS_OTHER = [
+    ("rename-local:emit.function", "doctrans/emit.py", [("args_from_params", "from_params_args")], "C03"),
+    ("rename-local:find_in_ast", "doctrans/ast_utils.py", [("current_search", "remaining_search")], "C15"),
+    ("rename-local:_interpolate_return", "doctrans/parser_utils.py", [("return_ast", "final_return")], "C07"),
+    ("reorder-independent:emit.class_", "doctrans/emit.py",
+     [("    indent_level = 1\n    sep = indent_level * tab\n    return ClassDef(", "    indent_level = 1\n    sep = tab * indent_level\n    return ClassDef(")], "C16"),
+    ("tuple-for-frozenset:annotate_ancestry", "doctrans/ast_utils.py", [('in frozenset(("self", "cls"))\n                            else 0,', 'in ("self", "cls")\n                            else 0,')], "C15"),
+]
 HARMLESS = [
     ("rename-local", "doctrans/defaults_utils.py", [("sub_l_len", "n_sub_l")]),
     ("reorder-independent", "doctrans/defaults_utils.py",
@@ -73,6 +82,23 @@ def main():
                 good = code == 0 and ev["coverage"]["obligations"] == ev["coverage"]["discharged"]
                 ok &= good
                 print("%s harmless %-22s -> C17 exit=%d discharged %d/%d" % ("ok  " if good else "FAIL", name, code, ev["coverage"]["discharged"], ev["coverage"]["obligations"]))
+            finally:
+                shutil.rmtree(scratch, ignore_errors=True)
+        for name, path, subs, pid in HARMLESS_OTHER:
+            scratch = _copy()
+            try:
+                fp = os.path.join(scratch, path)
+                s = open(fp).read()
+                for a, b in subs:
+                    if a not in s:
+                        print("FAIL harmless %s: anchor text not found" % name)
+                        ok = False
+                    s = s.replace(a, b)
+                open(fp, "w").write(s)
+                code, lines = _check(pid, scratch)
+                good = code == 0
+                ok &= good
+                print("%s harmless %-40s -> %s exit=%d %s" % ("ok  " if good else "FAIL", name, pid, code, lines[0][:120] if lines else ""))
             finally:
                 shutil.rmtree(scratch, ignore_errors=True)
     print("SELFTEST", "PASSED" if ok else "FAILED")
